@@ -178,6 +178,9 @@ def case_compose_ns(log, order, kind, shape="complex"):
         log.decide(v, key="ns.%s:%d:compose" % (kind, order), replay=rp, sampler=_sampler)
         v = prove_zero(E11 - 1, "non-singlet %s order %d: E(a1,a1) == 1" % (kind, order))
         log.decide(v, key="ns.%s:%d:compose" % (kind, order), replay=rp, sampler=_sampler)
+        for k in range(order):
+            v = prove_zero(SR(0) + gam[k] - SR.var("g%d" % k), "non-singlet %s order %d: the caller's tower is unchanged after three kernel calls (gamma[%d])" % (kind, order, k))
+            log.decide(v, key="ns.%s:%d:compose" % (kind, order), replay=rp, sampler=_sampler)
         log.twin("domain")
         log.collect_ctx()
 
@@ -292,7 +295,10 @@ def _sampler0(rng):
 
 
 def _ns_g(point, order):
-    return [complex(float(point.get("g%d" % k, 1.0 + k)), 0.3) for k in range(order)]
+    import numpy as np
+
+    # one complex ndarray reused for every leg, as the tower is in the callers (in-place updates of it are part of the behaviour)
+    return np.array([complex(float(point.get("g%d" % k, 1.0 + k)), 0.3) for k in range(order)])
 
 
 def _s_g(point, order):
